@@ -176,6 +176,14 @@ impl<'a> ExpressionVisitor<'a> for CodeBuilder<'a> {
         ty: TypeKind<'a>,
         byte_range: Range<usize>,
     ) -> Result<Self::Local, ExpressionError<'a>> {
+        if matches!(&ty, TypeKind::Just(NamedType::Class(cls)) if cls.is_namespace())
+            || matches!(&ty, TypeKind::Just(NamedType::Namespace(_)))
+        {
+            return Err(ExpressionError::OperationOnUnsupportedType(
+                "local declaration".to_owned(),
+                TypeDesc::Concrete(ty),
+            ));
+        }
         let a = self.alloca(ty, byte_range).map_err(|_| {
             ExpressionError::OperationOnUnsupportedType(
                 "local declaration".to_owned(),
